@@ -63,6 +63,9 @@ class Ctx:
         """Build the harness against /repo's current working tree with the verif tag."""
         out = os.path.join(self.work, "orbtrace-race" if race else "orbtrace")
         cmd = ["go", "build", "-tags", "verif"] + (["-race"] if race else []) + ["-o", out, "./cmd/orbtrace"]
+        if os.environ.get("VERIF_COVERDIR"):
+            # measurement only (bin/stmtcoverage): which statements of paulmach/orb the harness families execute
+            cmd[2:2] = ["-cover", "-coverpkg=github.com/paulmach/orb/..."]
         env = goenv()
         src = HARNESS
         if REPO != "/repo":
@@ -161,6 +164,8 @@ class Ctx:
         e = goenv()
         if env:
             e.update(env)
+        if os.environ.get("VERIF_COVERDIR"):
+            e["GOCOVERDIR"] = os.environ["VERIF_COVERDIR"]
         try:
             p = subprocess.run(cmd, env=e, stdout=subprocess.PIPE, stderr=subprocess.PIPE, text=True, timeout=timeout)
         except subprocess.TimeoutExpired:
